@@ -15,7 +15,9 @@ RULE = ('(i) complete enumeration of all operation sequences of the stated lengt
         'against the model time. Non-trivial = some event was paused at clock > 0, resumed at a strictly later '
         'clock and then executed; distinct = SHA-1 of the canonical case JSON.')
 ASSUMPTIONS = ['Environment._events / _paused_events hold the pending and paused events (anchors of C07)',
-               'times on the dyadic grid so that original + (now - paused_at) is exact in binary64']
+               'times on the dyadic grid so that original + (now - paused_at) is exact in binary64; in the float-noise phase '
+               '(decimal literals such as 1.1, 5.3) the reference computes the same expression in binary64 and, like the '
+               'repaired code, never lets a resumed event be due before the current time']
 
 ALPHABET = [['s', 1, 1, 5, []], ['s', 2, 1, 5, []], ['s', 1, 2.5, 5, []],
             ['p', 1], ['p', 2], ['u', 1], ['u', 2], ['c', 1], ['c', 2], ['step'], ['run', 1.5]]
@@ -37,10 +39,12 @@ def phases(tier):
     if tier == 'quick':
         return [Enumerate('enumeration-len5', space(5), 16, describe='11^5 = 161051 sequences'),
                 Search('hypothesis-sequences', lambda: e1gen.cases(40, PROLOGUE, with_past=False), 600, shards=4),
-                Machine('stateful-machine', envmachine.env_machine(('C07',), summarise), 250, 40, shards=4)]
+                Machine('stateful-machine', envmachine.env_machine(('C07',), summarise), 250, 40, shards=4),
+                Search('float-noise-sequences', lambda: e1gen.noise_cases(10), 800, shards=4)]
     return [Enumerate('enumeration-len6', space(6), 64, describe='11^6 = 1771561 sequences'),
             Search('hypothesis-sequences', lambda: e1gen.cases(60, PROLOGUE, with_past=False), 4000, shards=16),
-            Machine('stateful-machine', envmachine.env_machine(('C07',), summarise), 1500, 80, shards=16)]
+            Machine('stateful-machine', envmachine.env_machine(('C07',), summarise), 1500, 80, shards=16),
+            Search('float-noise-sequences', lambda: e1gen.noise_cases(16), 4000, shards=16)]
 
 
 def run_case(case, ctx):
